@@ -27,3 +27,9 @@ pub mod token;
 
 type FHashMap<K, V> = std::collections::HashMap<K, V, foldhash::fast::RandomState>;
 type FHashSet<T> = std::collections::HashSet<T, foldhash::fast::RandomState>;
+
+#[cfg(feature = "verif-hooks")]
+pub mod verif {
+    //! Verification hooks (only with the `verif-hooks` feature).
+    pub use crate::gc::verif::run_script;
+}
